@@ -101,6 +101,8 @@ def _motifs(rng, k):
         else:
             m = gens.random_dna(rng, n)
         out.append(m)
+    if rng.random() < 0.2:
+        out.append(oracles.revcomp(rng.choice(out)))     # a motif listed together with its own reverse complement
     return out
 
 
@@ -204,6 +206,22 @@ def generate(ctx):
         base = [s for _t, s in _strings(rng, cfg) if all(c in "ACGT" for c in s)]
         yield "growth", dict(cfg=cfg, pieces=[rng.choice(base) if base else "A" for _ in range(rng.randint(2, 5))],
                              cuts=[rng.randint(1, 4) for _ in range(5)])
+    for _ in range(ctx.pick(150, 1500)):
+        cfg = _config(rng)
+        strings = [s for _t, s in _strings(rng, cfg)][:12]
+        k = cfg["k"]
+        steps = []
+        for _s in range(3):
+            what = rng.choice(["motif-append", "motif-set", "run", "gc-item"])
+            if what == "motif-append":
+                steps.append([what, gens.random_dna(rng, rng.randint(1, k))])
+            elif what == "motif-set":
+                steps.append([what, rng.randrange(4), gens.random_dna(rng, rng.randint(1, k))])
+            elif what == "run":
+                steps.append([what, rng.choice([None] + list(range(0, k + 1)))])
+            else:
+                steps.append([what, rng.randrange(2), rng.choice(["0", "1/4", "1/2", "3/4", "1"])])
+        yield "config_edits", dict(cfg=cfg, strings=strings, steps=steps)
     for _ in range(ctx.pick(1500, 20000)):
         cfg = _config(rng)
         for tag, s in _strings(rng, cfg):
@@ -310,7 +328,52 @@ def check_growth(ctx, case):
     ctx.done("growth", case, True)
 
 
-CHECKS = {"valid": check_valid, "growth": check_growth}
+def check_config_edits(ctx, case):
+    """G2: one filter object whose public settings are edited in place between calls (a motif appended to the same list,
+    a list item replaced, the run limit or one GC bound changed); every verdict must follow the settings as they are."""
+    dsw = import_dsw()
+    cfg = dict(case["cfg"])
+    cfg["motifs"] = None if cfg["motifs"] is None else list(cfg["motifs"])
+    cfg["gc"] = None if cfg["gc"] is None else list(cfg["gc"])
+    out = monitored(_build, 10000, dsw, cfg)
+    if out.kind != "ok":
+        return
+    f = out.value
+    for stage in range(len(case["steps"]) + 1):
+        what = "LocalBioFilter edited in place (stage %d): k=%d run=%s gc=%s motifs=%s" % (stage, cfg["k"], cfg["run"], cfg["gc"], cfg["motifs"])
+        for s in case["strings"]:
+            for only_last in (False, True):
+                want, why = ref_valid(cfg, s, only_last)
+                got = _lib(ctx, f, s, only_last, what)
+                if got is not None and got != want:
+                    ctx.fail("verdict-stale-after-settings-edit:" + why, "%s: valid(%r, only_last=%s) = %s, predicate for the current settings says %s" % (
+                        what, s, only_last, got, want), "config_edits", case)
+                    return
+                ctx.evaluations += 1
+        if stage < len(case["steps"]):
+            st = case["steps"][stage]
+            if st[0] == "motif-append":
+                if f.undesired_motifs is None:
+                    f.undesired_motifs = []
+                    cfg["motifs"] = []
+                f.undesired_motifs.append(st[1])
+                cfg["motifs"].append(st[1])
+            elif st[0] == "motif-set":
+                if f.undesired_motifs:
+                    i = st[1] % len(f.undesired_motifs)
+                    f.undesired_motifs[i] = st[2]
+                    cfg["motifs"][i] = st[2]
+            elif st[0] == "run":
+                f.max_homopolymer_runs = st[1]
+                cfg["run"] = st[1]
+            elif f.gc_range is not None:
+                f.gc_range[st[1]] = float(Fraction(st[2]))
+                cfg["gc"][st[1]] = st[2]
+    ctx.cls("settings of one filter object edited in place between calls")
+    ctx.done("config_edits", case, True)
+
+
+CHECKS = {"valid": check_valid, "growth": check_growth, "config_edits": check_config_edits}
 
 
 def floors(agg, tier):
@@ -322,7 +385,7 @@ def floors(agg, tier):
             need = 500 if not (ol and why == "gc-short") else 100
             if c.get(name, 0) < need:
                 out.append("%s decided %d < %d" % (name, c.get(name, 0), need))
-    for name, need in (("growing strand judged by one filter object", 500), ("string|long", 100), ("string|foreign-tail", 500),
+    for name, need in (("settings of one filter object edited in place between calls", 500), ("growing strand judged by one filter object", 500), ("string|long", 100), ("string|foreign-tail", 500),
                        ("gc-count within 1 of lo bound", 100), ("gc-count within 1 of hi bound", 100),
                        ("metamorphic|revcomp", 1000), ("metamorphic|window-conjunction", 1000)):
         if c.get(name, 0) < need:
